@@ -58,7 +58,7 @@ func traverse(context Context, matchingNode *CandidateNode, operation *Operation
 
 	case SequenceNode:
 		log.Debug("its a sequence of %v things!", len(matchingNode.Content))
-		return traverseArray(matchingNode, operation, operation.Preferences.(traversePreferences))
+		return traverseArray(context, matchingNode, operation, operation.Preferences.(traversePreferences))
 
 	case AliasNode:
 		log.Debug("its an alias!")
@@ -126,12 +126,14 @@ func traverseNodesWithArrayIndices(context Context, indicesToTraverse []*Candida
 func traverseArrayIndices(context Context, matchingNode *CandidateNode, indicesToTraverse []*CandidateNode, prefs traversePreferences) (*list.List, error) { // call this if doc / alias like the other traverse
 	if matchingNode.Tag == "!!null" {
 		log.Debugf("OperatorArrayTraverse got a null - turning it into an empty array")
-		// auto vivification
-		matchingNode.Tag = ""
-		matchingNode.Kind = SequenceNode
-		//check that the indices are numeric, if not, then we should create an object
-		if len(indicesToTraverse) != 0 && indicesToTraverse[0].Tag != "!!int" {
-			matchingNode.Kind = MappingNode
+		if context.DontAutoCreate {
+			// read only: look at the null as an empty collection without touching the document
+			emptyCollection := matchingNode.Copy()
+			vivifyNull(emptyCollection, indicesToTraverse)
+			matchingNode = emptyCollection
+		} else {
+			// auto vivification
+			vivifyNull(matchingNode, indicesToTraverse)
 		}
 	}
 
@@ -139,12 +141,21 @@ func traverseArrayIndices(context Context, matchingNode *CandidateNode, indicesT
 		matchingNode = matchingNode.Alias
 		return traverseArrayIndices(context, matchingNode, indicesToTraverse, prefs)
 	} else if matchingNode.Kind == SequenceNode {
-		return traverseArrayWithIndices(matchingNode, indicesToTraverse, prefs)
+		return traverseArrayWithIndices(context, matchingNode, indicesToTraverse, prefs)
 	} else if matchingNode.Kind == MappingNode {
 		return traverseMapWithIndices(context, matchingNode, indicesToTraverse, prefs)
 	}
 	log.Debugf("OperatorArrayTraverse skipping %v as its a %v", matchingNode, matchingNode.Tag)
 	return list.New(), nil
+}
+
+func vivifyNull(node *CandidateNode, indicesToTraverse []*CandidateNode) {
+	node.Tag = ""
+	node.Kind = SequenceNode
+	//check that the indices are numeric, if not, then we should create an object
+	if len(indicesToTraverse) != 0 && indicesToTraverse[0].Tag != "!!int" {
+		node.Kind = MappingNode
+	}
 }
 
 func traverseMapWithIndices(context Context, candidate *CandidateNode, indices []*CandidateNode, prefs traversePreferences) (*list.List, error) {
@@ -166,7 +177,7 @@ func traverseMapWithIndices(context Context, candidate *CandidateNode, indices [
 	return matchingNodeMap, nil
 }
 
-func traverseArrayWithIndices(node *CandidateNode, indices []*CandidateNode, prefs traversePreferences) (*list.List, error) {
+func traverseArrayWithIndices(context Context, node *CandidateNode, indices []*CandidateNode, prefs traversePreferences) (*list.List, error) {
 	log.Debug("traverseArrayWithIndices")
 	var newMatches = list.New()
 	if len(indices) == 0 {
@@ -190,15 +201,27 @@ func traverseArrayWithIndices(node *CandidateNode, indices []*CandidateNode, pre
 		}
 		indexToUse := index
 		contentLength := len(node.Content)
-		for contentLength <= index {
-			if contentLength == 0 {
-				// default to nice yaml formatting
-				node.Style = 0
+		if contentLength <= index {
+			if context.DontAutoCreate {
+				// read only: past the end there is a null, but it is not added to the document
+				valueNode := node.CreateChild()
+				valueNode.Kind = ScalarNode
+				valueNode.Tag = "!!null"
+				valueNode.Value = "null"
+				valueNode.Key = createScalarNode(index, fmt.Sprintf("%v", index))
+				newMatches.PushBack(valueNode)
+				continue
 			}
+			for contentLength <= index {
+				if contentLength == 0 {
+					// default to nice yaml formatting
+					node.Style = 0
+				}
 
-			valueNode := createScalarNode(nil, "null")
-			node.AddChild(valueNode)
-			contentLength = len(node.Content)
+				valueNode := createScalarNode(nil, "null")
+				node.AddChild(valueNode)
+				contentLength = len(node.Content)
+			}
 		}
 
 		if indexToUse < 0 {
@@ -309,8 +332,8 @@ func traverseMergeAnchor(newMatches *orderedmap.OrderedMap, value *CandidateNode
 	return nil
 }
 
-func traverseArray(candidate *CandidateNode, operation *Operation, prefs traversePreferences) (*list.List, error) {
+func traverseArray(context Context, candidate *CandidateNode, operation *Operation, prefs traversePreferences) (*list.List, error) {
 	log.Debug("operation Value %v", operation.Value)
 	indices := []*CandidateNode{{Value: operation.StringValue}}
-	return traverseArrayWithIndices(candidate, indices, prefs)
+	return traverseArrayWithIndices(context, candidate, indices, prefs)
 }
